@@ -789,6 +789,14 @@ fn b11_mutations(ctx: &mut Ctx, inv: &Bolt11Invoice, s: &str, hrp: &str, data: &
 		}
 		pos += if pos < 7 || pos + 110 >= data.len() { 1 } else { stride };
 	}
+	// R3a': the whole timestamp set to boundary values (all symbols 31 = 2^35-1, all 0, 2^34)
+	for ts in [[31u8; 7], [0u8; 7], [16, 0, 0, 0, 0, 0, 0]] {
+		let mut d = data.to_vec();
+		if d.len() > 7 && d[..7] != ts {
+			d[..7].copy_from_slice(&ts);
+			b11_judge(ctx, inv, s, &b32_join(hrp, &d), "timestamp boundary");
+		}
+	}
 	// R3b: amount / currency edits of the hrp
 	let cur_len = hrp.len() - 2 - hrp[2..].trim_start_matches(|c: char| !c.is_ascii_digit()).len();
 	let (cur, amt) = hrp[2..].split_at(cur_len);
@@ -895,7 +903,7 @@ fn b11_case(ctx: &mut Ctx, p: &B11Params, rng: &mut Rng, mutate: bool) -> Option
 		Ok(Err(e)) => {
 			ctx.rep.count("b11_builder_rejected");
 			if !p.expect_err {
-				ctx.rep.inconclusive(format!("BOLT11 generator produced inputs the builder refuses: {:?}", e));
+				ctx.violate("B11-R0-builder", &format!("the BOLT11 builder refuses inputs that are within the documented ranges: {}", vcore::canon(&format!("{:?}", e))), format!("{:?}", e), &wit(p));
 			}
 			return None;
 		},
@@ -1673,6 +1681,14 @@ fn alter_offer(b: &[u8], rng: &mut Rng, secp: &Secp256k1<All>) -> Vec<(&'static 
 		out.push(("paths", tlv_set(b, 16, Some(&v2))));
 	}
 	out.push(("issuer_id", tlv_set(b, 22, Some(&rnd_pk(rng, secp).serialize()[..]))));
+	if let Some(v) = tlv_get(b, 22) {
+		if v.len() == 33 {
+			// the same x coordinate with the other parity
+			let mut v = v.to_vec();
+			v[0] ^= 1;
+			out.push(("issuer_id parity", tlv_set(b, 22, Some(&v))));
+		}
+	}
 	match tlv_get(b, 4) {
 		Some(v) if !v.is_empty() => {
 			let mut v = v.to_vec();
@@ -1713,6 +1729,13 @@ fn alter_request_part(b: &[u8], rng: &mut Rng, secp: &Secp256k1<All>) -> Vec<(&'
 	out.push(("absolute_expiry", tlv_set(b, 14, Some(&tu64(FUTURE + 5 + tlv_get(b, 14).map(from_tu64).unwrap_or(0) % 1000)))));
 	out.push(("issuer", tlv_set(b, 18, Some(b"another issuer"))));
 	out.push(("payer_id", tlv_set(b, 88, Some(&rnd_pk(rng, secp).serialize()[..]))));
+	if let Some(v) = tlv_get(b, 88) {
+		if v.len() == 33 {
+			let mut v = v.to_vec();
+			v[0] ^= 1;
+			out.push(("payer_id parity", tlv_set(b, 88, Some(&v))));
+		}
+	}
 	if let Some(v) = tlv_get(b, 0) {
 		if !v.is_empty() {
 			let mut v = v.to_vec();
